@@ -264,7 +264,7 @@ def seed_runs(seeds):
                                           stderr=subprocess.PIPE, universal_newlines=True)))
     res = {}
     for s, p in procs:
-        o, e = p.communicate(timeout=600)
+        o, e = p.communicate(timeout=1800)
         if p.returncode != 0:
             raise tlc.TlcError('seed run %s failed: %s' % (s, e[-2000:]))
         res[s] = json.loads(o.strip().splitlines()[-1])
